@@ -124,23 +124,8 @@ class Driver:
         self.cfg.update(cfg or {})
         self.n = nslots
         self.slots = {i: SlotState() for i in range(1, nslots + 1)}
-        limits = {LIMIT_NAMES[k]: v for k, v in self.cfg.items() if k in LIMIT_NAMES and v < 100000}
-        if 'replyTimeoutMs' in self.cfg:
-            limits['reply_timeout'] = self.cfg['replyTimeoutMs']
-        kw = dict(daemon_kw or {})
-        if 'maxIncomplete' in self.cfg:
-            limits['max_incomplete_connections'] = self.cfg['maxIncomplete']
-        if 'maxOutgoing' in self.cfg:
-            limits['max_outgoing_bytes'] = self.cfg['maxOutgoing']
-        if self.cfg['maxMsgSize'] != 33554432:
-            limits['max_message_size'] = self.cfg['maxMsgSize']
-        if self.cfg.get('maxMsgFds', 16) != 16:
-            limits['max_message_unix_fds'] = self.cfg['maxMsgFds']
-        if 'policy_ctxs' in self.cfg:
-            import policygen
-            xml, rec = policygen.policy([tuple(c) for c in self.cfg['policy_ctxs']], self.cfg.get('groups_of'))
-            kw['policy'] = xml
-            self.cfg['policy'] = rec
+        self.daemon_kw = dict(daemon_kw or {})
+        kw, limits = self.config_kw()
         self.actdir = None
         if self.cfg.get('act'):
             import tempfile
@@ -164,13 +149,9 @@ class Driver:
         self.exited = set()
         self.atimes = {}
         kw.setdefault('limits', limits)
+        self.start_kw = kw
         self.daemon = Daemon(build, **kw)
-        self.lines = [{'e': 'Reset', 'cfg': {k: self.cfg[k] for k in
-                                              ('maxNames', 'maxMatch', 'maxReplies', 'maxCompleted', 'maxPerUser',
-                                               'busUid', 'policy', 'maxMsgFds', 'maxMsgSize')}}]
-        if self.cfg.get('act'):
-            self.lines[0]['cfg']['act'] = [{'n': B(a['n']), 'kind': a['kind']} for a in self.cfg['act']]
-            self.lines[0]['cfg']['maxPendingAct'] = self.cfg.get('maxPendingAct', 512)
+        self.lines = [{'e': 'Reset', 'cfg': self.cfg_record()}]
         self.rawobs = bool(self.cfg.get('rawobs'))
         # baseline of the daemon's descriptor table, taken after it has finished its lazy start-up work
         try:
@@ -204,6 +185,53 @@ class Driver:
         self.kept = []
 
     # -- writing one op; returns the normalised op record (None = skipped)
+    def config_kw(self):
+        """(keyword arguments for make_config, limits) for the configuration self.cfg describes"""
+        limits = {LIMIT_NAMES[k]: v for k, v in self.cfg.items() if k in LIMIT_NAMES and v < 100000}
+        if 'replyTimeoutMs' in self.cfg:
+            limits['reply_timeout'] = self.cfg['replyTimeoutMs']
+        kw = dict(self.daemon_kw)
+        if 'maxIncomplete' in self.cfg:
+            limits['max_incomplete_connections'] = self.cfg['maxIncomplete']
+        if 'maxOutgoing' in self.cfg:
+            limits['max_outgoing_bytes'] = self.cfg['maxOutgoing']
+        if self.cfg['maxMsgSize'] != 33554432:
+            limits['max_message_size'] = self.cfg['maxMsgSize']
+        if self.cfg.get('maxMsgFds', 16) != 16:
+            limits['max_message_unix_fds'] = self.cfg['maxMsgFds']
+        if 'policy_ctxs' in self.cfg:
+            import policygen
+            xml, rec = policygen.policy([tuple(c) for c in self.cfg['policy_ctxs']], self.cfg.get('groups_of'))
+            kw['policy'] = xml
+            self.cfg['policy'] = rec
+        return kw, limits
+
+    def cfg_record(self):
+        """the configuration as the trace specification reads it (Reset line, reload operation)"""
+        rec = {k: self.cfg[k] for k in ('maxNames', 'maxMatch', 'maxReplies', 'maxCompleted', 'maxPerUser',
+                                        'busUid', 'policy', 'maxMsgFds', 'maxMsgSize')}
+        if self.cfg.get('act'):
+            rec['act'] = [{'n': B(a['n']), 'kind': a['kind']} for a in self.cfg['act']]
+            rec['maxPendingAct'] = self.cfg.get('maxPendingAct', 512)
+        return rec
+
+    def reload(self, c, op):
+        """rewrite the configuration file (limits and policy from op['cfg'], everything else as at start) and ask the
+        bus to read it again"""
+        from daemon import make_config
+        self.cfg.update(op['cfg'])
+        kw, limits = self.config_kw()
+        for k in ('servicedirs',):
+            if k in self.start_kw:
+                kw[k] = self.start_kw[k]
+        for k in ('service_start_timeout', 'max_pending_service_starts'):
+            if k in self.start_kw.get('limits', {}):
+                limits[k] = self.start_kw['limits'][k]
+        kw.setdefault('limits', limits)
+        self.daemon.write_config(make_config(self.daemon.dir, **kw))
+        ser = c.bus_call('ReloadConfig', flags=op.get('fl', 0))
+        return {'k': 'reload', 'ser': ser, 'fl': op.get('fl', 0), 'cfg': self.cfg_record()}
+
     def write_op(self, s, op):
         st = self.slots[s]
         k = op['k']
@@ -247,6 +275,8 @@ class Driver:
             return {'k': 'aclose', 'waseof': waseof}
         if st.mute:
             return None
+        if k == 'reload':
+            return self.reload(c, op)
         if k == 'hello':
             ser = c.bus_call('Hello', flags=fl)
             return {'k': 'hello', 'ser': ser, 'fl': fl, 'got': []}
